@@ -19,11 +19,11 @@ EXTENDS Message, TraceBase, FiniteSets
 SendGap == 30000
 RecvGap == 100000
 
-VARIABLES l, cur, prevKind, lastW, lastR, first, gotReply, minSend, minRecv, wlen, sent, clean
-vars == <<l, cur, prevKind, lastW, lastR, first, gotReply, minSend, minRecv, wlen, sent, clean>>
+VARIABLES l, cur, prevKind, lastW, lastR, first, gotReply, minSend, minRecv, wlen, sent, clean, fl
+vars == <<l, cur, prevKind, lastW, lastR, first, gotReply, minSend, minRecv, wlen, sent, clean, fl>>
 
 Init == l = 1 /\ cur = NoReply /\ prevKind = "" /\ lastW = 0 /\ lastR = 0 /\ first = TRUE /\ gotReply = FALSE
-        /\ minSend = <<>> /\ minRecv = <<>> /\ wlen = 0 /\ sent = 0 /\ clean = TRUE
+        /\ minSend = <<>> /\ minRecv = <<>> /\ wlen = 0 /\ sent = 0 /\ clean = TRUE /\ fl = FALSE
 
 E == Rec[l]
 IsEvent(name) == l <= NRec /\ E.e = name /\ l' = l + 1
@@ -31,7 +31,7 @@ IsEvent(name) == l <= NRec /\ E.e = name /\ l' = l + 1
 Upd(f, k, v) == [x \in DOMAIN f \cup {k} |-> IF x = k THEN (IF k \in DOMAIN f /\ f[k] < v THEN f[k] ELSE v) ELSE f[x]]
 
 PMEv == /\ IsEvent("pm")
-        /\ cur' = E.m /\ first' = TRUE /\ gotReply' = FALSE /\ wlen' = E.wlen /\ sent' = 0 /\ clean' = TRUE
+        /\ cur' = E.m /\ first' = TRUE /\ gotReply' = FALSE /\ wlen' = E.wlen /\ sent' = 0 /\ clean' = TRUE /\ fl' = FALSE
         /\ UNCHANGED <<prevKind, lastW, lastR, minSend, minRecv>>
 
 PW == /\ IsEvent("pw")
@@ -39,17 +39,17 @@ PW == /\ IsEvent("pw")
       /\ first' = FALSE
       /\ IF E.ret > 0 THEN lastW' = E.t1 /\ sent' = sent + E.ret /\ UNCHANGED clean
          ELSE clean' = FALSE /\ UNCHANGED <<lastW, sent>>
-      /\ UNCHANGED <<cur, prevKind, lastR, gotReply, minSend, minRecv, wlen>>
+      /\ UNCHANGED <<cur, prevKind, lastR, gotReply, minSend, minRecv, wlen, fl>>
 
 PF == /\ IsEvent("pf")
-      /\ clean' = (clean /\ E.ret >= 0)
+      /\ clean' = (clean /\ E.ret >= 0) /\ fl' = (fl \/ E.ret < 0)
       /\ UNCHANGED <<cur, prevKind, lastW, lastR, first, gotReply, minSend, minRecv, wlen, sent>>
 
 PR == /\ IsEvent("pr")
       \* time between the end of the last write and the first read: where a send delay would sit
       /\ minSend' = IF ~gotReply /\ clean /\ cur.k # "SendData" THEN Upd(minSend, cur.k, E.t0 - lastW) ELSE minSend
       /\ lastR' = E.t1 /\ gotReply' = (E.ret > 0 \/ gotReply) /\ clean' = (clean /\ E.ret > 0)
-      /\ UNCHANGED <<cur, prevKind, lastW, first, minRecv, wlen, sent>>
+      /\ UNCHANGED <<cur, prevKind, lastW, first, minRecv, wlen, sent, fl>>
 
 InProgress(r) == r.k = "ReportState" /\ r.s \in {"PageLoadInProgress", "PageShowInProgress"}
 
@@ -59,15 +59,17 @@ PMRet ==
     /\ minRecv' = IF gotReply /\ clean /\ ~InProgress(E.res) /\ E.res.k \notin {"Err", "Panic"}
                   THEN Upd(minRecv, <<E.res.k, E.res.s>>, E.t - lastR) ELSE minRecv
     /\ minSend' = IF ~gotReply /\ clean /\ cur.k # "SendData" THEN Upd(minSend, cur.k, E.t - lastW) ELSE minSend
-    \* a data chunk counts once its whole frame went out; a chunk that was only partly written is followed by no pause
-    /\ prevKind' = IF cur.k = "SendData" /\ sent < wlen THEN "partial" ELSE cur.k
-    /\ UNCHANGED <<cur, lastW, lastR, first, gotReply, wlen, sent, clean>>
+    \* a data chunk counts once its whole frame went out; a chunk that was only partly written is followed by no pause, and
+    \* neither is one that the port refused to flush (the library as it stands never flushes; for a version that does, a
+    \* refused flush is read as "the chunk is not known to have gone out", the reading that raises no alarm)
+    /\ prevKind' = IF cur.k = "SendData" /\ (sent < wlen \/ fl) THEN "partial" ELSE cur.k
+    /\ UNCHANGED <<cur, lastW, lastR, first, gotReply, wlen, sent, clean, fl>>
 
 EndEv == /\ IsEvent("end")
          /\ \A k \in DOMAIN minSend : minSend[k] < SendGap                  \* no other message is delayed by 30 ms
          /\ \A k \in DOMAIN minRecv : minRecv[k] < RecvGap                  \* no other reply is delayed by 100 ms
          /\ Cardinality(DOMAIN minSend) >= 9 /\ Cardinality(DOMAIN minRecv) >= 15   \* all kinds were exercised
-         /\ UNCHANGED <<cur, prevKind, lastW, lastR, first, gotReply, minSend, minRecv, wlen, sent, clean>>
+         /\ UNCHANGED <<cur, prevKind, lastW, lastR, first, gotReply, minSend, minRecv, wlen, sent, clean, fl>>
 
 Next == PMEv \/ PW \/ PF \/ PR \/ PMRet \/ EndEv
 Spec == Init /\ [][Next]_vars
